@@ -46,6 +46,7 @@ type pathInfo struct {
 	matches []string // token sets of successful match events, in order
 	events  []*Event
 	callArg map[*Event][]string // arguments of successful calls, described as of the time of the call
+	appended map[*Event]string // append event → what was appended, described at that point of the path
 }
 
 func resolveDesc(desc map[string]string, v string) string {
@@ -66,7 +67,7 @@ func resolveDesc(desc map[string]string, v string) string {
 }
 
 func interpretPath(w []*Event) *pathInfo {
-	pi := &pathInfo{desc: map[string]string{}, events: w, callArg: map[*Event][]string{}}
+	pi := &pathInfo{desc: map[string]string{}, events: w, callArg: map[*Event][]string{}, appended: map[*Event]string{}}
 	callCount := map[string]int{}
 	nodeCount := map[string]int{}
 	byObj := map[string]*nodeInst{}
@@ -111,6 +112,7 @@ func interpretPath(w []*Event) *pathInfo {
 					elems = strings.TrimSuffix(strings.TrimPrefix(base, "list["), "]")
 				}
 				x := resolveDesc(pi.desc, e.Args[1])
+				pi.appended[e] = x
 				if elems != "" {
 					elems += ","
 				}
@@ -588,6 +590,15 @@ func checkUnaryShape(l *Ledger, pinfo *parserInfo) {
 			problems = append(problems, "several operator matches on one path of unary (prefix operators must nest by recursion, outermost first)")
 		}
 	}
+	shape := "( ! | - | ~ ) unary | call"
+	if len(problems) > 0 {
+		// the same language and the same trees built without recursion: collect the prefix operators, parse one call,
+		// wrap it from the last operator to the first
+		if iterProblems := unaryIterativeShape(pinfo); len(iterProblems) == 0 {
+			problems = nil
+			shape = "prefix operators collected in order, one call, then wrapped from the last operator to the first (the first is outermost, as with the recursive form)"
+		}
+	}
 	// power's operands are unary (checked through the ladder: the lowest level's operand), re-check explicitly
 	if lv, probs := extractLevel(pinfo, "power"); lv != nil && len(probs) == 0 {
 		if lv.operand != "unary" || lv.right != "unary" {
@@ -596,7 +607,7 @@ func checkUnaryShape(l *Ledger, pinfo *parserInfo) {
 	}
 	problems = uniqStrings(sortStrings(problems))
 	if len(problems) == 0 {
-		l.Discharge(rule, "parser.unary", "", "( ! | - | ~ ) unary | call; ** takes unary operands", true)
+		l.Discharge(rule, "parser.unary", "", shape+"; ** takes unary operands", true)
 	} else {
 		l.Violate(rule, "parser.unary", "", strings.Join(problems, " || "))
 	}
@@ -767,7 +778,7 @@ func checkDanglingElse(l *Ledger, pinfo *parserInfo) {
 			}
 		} else {
 			sawNoElse = true
-			if n.fields["ElseBranch"] != "nil" || n.fields["ThenBranch"] != "statement#1" {
+			if eb, set := n.fields["ElseBranch"]; (set && eb != "nil") || n.fields["ThenBranch"] != "statement#1" { // a field never stored is the zero value
 				problems = append(problems, fmt.Sprintf("without else: Then=%s Else=%s", n.fields["ThenBranch"], n.fields["ElseBranch"]))
 			}
 		}
@@ -853,4 +864,58 @@ func checkNodeWiring(l *Ledger, pinfo *parserInfo) {
 		}
 	}
 	// ForStmt increment ordinal: second expression when a condition was parsed — covered by the pattern expression#[12]
+}
+
+var reRevIndexed = regexp.MustCompile(`^list\[([^\]]*)\]\[revidx:[^\]]*\]$`)
+
+// unaryIterativeShape: every successful path of unary matches k >= 0 prefix operators, each appended to one list right
+// after it was matched, parses exactly one call, and — when k > 0 — builds Unary nodes in a loop that runs over that
+// list from its last element to its first (the machine names the index of such a loop revidx), each node taking the
+// operator under the index and, as operand, the call's node (first) or the node built before it; the last node is
+// returned.  The loop form guarantees one node per collected operator and that the first operator ends up outermost.
+func unaryIterativeShape(pinfo *parserInfo) []string {
+	var problems []string
+	sawPlain, sawPrefixed := false, false
+	for _, p := range successPaths(pinfo.Models["unary"]) {
+		if len(p.calls) != 1 || p.calls[0] != "call" {
+			problems = append(problems, fmt.Sprintf("a path of unary makes the sub-parses %v", p.calls))
+			continue
+		}
+		k := len(p.matches)
+		if k == 0 {
+			sawPlain = true
+			if len(p.nodes) != 0 || p.ret != "call#1" {
+				problems = append(problems, "without a prefix operator unary must return the call's node unchanged")
+			}
+			continue
+		}
+		sawPrefixed = true
+		if len(p.nodes) == 0 {
+			problems = append(problems, "prefix operators are consumed but no Unary node is built")
+			continue
+		}
+		want := strings.TrimSuffix(strings.Repeat("prev:match,", k), ",")
+		for j, n := range p.nodes {
+			mm := reRevIndexed.FindStringSubmatch(n.fields["Operator"])
+			switch {
+			case n.kind != "Unary":
+				problems = append(problems, "builds a "+n.kind)
+			case mm == nil:
+				problems = append(problems, "Unary.Operator is "+n.fields["Operator"]+", not the element of the collected operators under a last-to-first index")
+			case mm[1] != want:
+				problems = append(problems, "the list the operators are taken from holds ["+mm[1]+"] after "+fmt.Sprint(k)+" matched operators")
+			case j == 0 && n.fields["Right"] != "call#1":
+				problems = append(problems, "the innermost Unary's operand is "+n.fields["Right"]+", not the call's node")
+			case j > 0 && n.fields["Right"] != p.nodes[j-1].id:
+				problems = append(problems, "a Unary's operand is "+n.fields["Right"]+", not the node built before it")
+			}
+		}
+		if p.ret != p.nodes[len(p.nodes)-1].id {
+			problems = append(problems, "unary returns "+p.ret+", not the last node built")
+		}
+	}
+	if !sawPlain || !sawPrefixed {
+		problems = append(problems, "both forms (with and without prefix operators) must be parsed")
+	}
+	return uniqStrings(sortStrings(problems))
 }
